@@ -12,6 +12,7 @@ require (
 require (
 	github.com/aperturerobotics/json-iterator-lite v1.0.0 // indirect
 	github.com/sirupsen/logrus v1.9.3 // indirect
+	golang.org/x/exp v0.0.0-20241108190413-2d47ceb2692f // indirect
 	golang.org/x/sys v0.13.0 // indirect
 )
 
